@@ -155,6 +155,7 @@ def run(ctx):
     r2(ctx, F)
     r3(ctx, F)
     r4_r5(ctx, F)
+    r7(ctx, F)
     ctx.not_decided('nth(n) == n+1 next calls; len()/size_hint() == number of values still to come; None after exhaustion without panic')
 
 
@@ -256,3 +257,73 @@ def r4_r5(ctx, F):
                         'the last value instead of None, so step_by / skip / nth see a different sequence than repeated next()' % (CAP[mode], clamps))
     ctx.floor('C15-R4', n4, 4, 'ExactSizeIterator::len impls')
     ctx.floor('C15-R5', n5, 4, 'custom Iterator::nth impls')
+
+
+# ---- R7: the caller's n (any usize, usize::MAX included) takes part in overflowing arithmetic only after it has been bounded
+BOUNDERS = ('min', 'clamp', 'saturating_add', 'saturating_sub', 'saturating_mul', 'checked_add', 'checked_sub', 'checked_mul',
+            'wrapping_add', 'wrapping_sub', 'overflowing_add', 'try_from', 'try_into')
+OVERFLOWING = ('Add', 'AddWithOverflow', 'AddUnchecked', 'Mul', 'MulWithOverflow', 'MulUnchecked', 'Shl', 'ShlUnchecked')
+
+
+def _raw_use(v, idx, depth=0):
+    """does the tree reach parameter `idx` without passing through a bounding call"""
+    if depth > 40:
+        return False
+    k = v[0]
+    if k == 'param':
+        return v[1] == idx
+    if k == 'call':
+        if v[1].get('name') in BOUNDERS:
+            return False
+        return any(_raw_use(a, idx, depth + 1) for a in v[2])
+    if k == 'phi':
+        return any(_raw_use(a, idx, depth + 1) for a in v[1])
+    if k == 'binop':
+        return _raw_use(v[2], idx, depth + 1) or _raw_use(v[3], idx, depth + 1)
+    if k in ('field', 'discr', 'variant', 'unop'):
+        return _raw_use(v[1] if k != 'unop' else v[2], idx, depth + 1)
+    if k == 'cast':
+        return any(isinstance(x, tuple) and _raw_use(x, idx, depth + 1) for x in v[1:])
+    return False
+
+
+def r7(ctx, F):
+    n7 = 0
+    for fn in F.fns:
+        if fn.name not in ('nth', 'nth_back', 'advance_by') or 'gradual' not in fn.path:
+            continue
+        ins = fn.j.get('inputs') or []
+        idxs = [i + 1 for i, t in enumerate(ins) if t.get('s') == 'usize']
+        if not idxs:
+            continue
+        ctx.saw(fn)
+        n7 += 1
+        nidx = idxs[-1]
+        P = prov.prov_of(fn)
+        bad = []
+        for bi, si, s in fn.assigns():
+            rv = s['rv']
+            if rv['k'] != 'binop' or rv['op'] not in OVERFLOWING:
+                continue
+            a, b = P.operand(rv['a'], bi, si), P.operand(rv['b'], bi, si)
+            if not (_raw_use(a, nidx) or _raw_use(b, nidx)):
+                continue
+            # bounded by a dominating comparison of n itself?
+            ok = False
+            for c, lab in arms.bool_facts(fn, bi):
+                c = prov.strip(c, names={'likely', 'unlikely'})
+                if c[0] == 'binop' and c[1] in ('Ge', 'Gt', 'Lt', 'Le'):
+                    left = as_param_path(c[2], through_calls=False) == (nidx, ())
+                    right = as_param_path(c[3], through_calls=False) == (nidx, ())
+                    if left == right:
+                        continue
+                    n_is_smaller_when_true = (c[1] in ('Lt', 'Le')) == left
+                    if (lab == 'true') == n_is_smaller_when_true:
+                        ok = True
+            if not ok:
+                bad.append((s.get('ln'), '%s(%s, %s)' % (rv['op'], prov.show(a, maxdepth=2), prov.show(b, maxdepth=2))))
+        ctx.require(not bad, 'C15-R7', '%s:n-arith' % fn.path, '%s: the caller\'s n is compared, clamped or saturated before any addition / multiplication' % fn.path, fn.where(),
+                    bad='%s computes %s with the caller\'s unbounded n before n has been compared with the remaining length or clamped: nth(usize::MAX) after at least one '
+                        'step overflows (panic with overflow checks, wrap-around to an earlier index without) instead of returning None' % (
+                            fn.path, '; '.join('%s at line %s' % (e, l) for l, e in bad[:3])))
+    ctx.floor('C15-R7', n7, 10, 'nth implementations of the gradual calculators')
